@@ -7,6 +7,7 @@ import (
 	"encoding/hex"
 	"errors"
 	"io"
+	"os"
 	"time"
 
 	"github.com/go-git/go-git/v6/plumbing"
@@ -289,9 +290,32 @@ func encode(c lib.Case, w io.Writer) error {
 }
 
 func main() {
-	lib.Main(func(c lib.Case) (lib.Out, any) {
+	if len(os.Args) == 3 && os.Args[1] == "stub" {
+		os.Exit(stubMain(os.Args[2]))
+	}
+	lib.Main(handle)
+}
+
+func handle(c lib.Case) (lib.Out, any) {
+	{
 		chunks := pkutil.Ints(c.L("chunks"))
 		switch c.S("kind") {
+		case "multi": // several values of one scenario (C-git): ( out1 out2 … )
+			var outs []lib.Out
+			var extras []any
+			for _, x := range c.L("parts") {
+				o, e := handle(lib.AsCase(x))
+				outs = append(outs, o)
+				extras = append(extras, e)
+			}
+			return lib.List(outs...), jv{"parts": extras}
+		case "dec2":
+			o, v := decode2(c.S("msg"), pkutil.NewChunkReader(c.B("hex"), chunks))
+			return o, jv{"value": v}
+		case "rt2":
+			return rt2(c)
+		case "unitab":
+			return unitab(), nil
 		case "dec":
 			o, v := decode(c.S("msg"), pkutil.NewChunkReader(c.B("hex"), chunks))
 			return o, jv{"value": v}
@@ -318,5 +342,5 @@ func main() {
 			return lib.List(lib.Ok(pkutil.OBytes(enc)), o), jv{"enc": "ok", "bytes": hx(string(enc)), "value": v}
 		}
 		return lib.Err("bad_case"), nil
-	})
+	}
 }
